@@ -30,6 +30,7 @@ type Obligation struct {
 	Expect  string // "" = must be unsat; "sat" = canary (must be refuted)
 	FP      bool   // cone contains floating point
 	Pos     string
+	AltGuards []string // guards whose disjunction is Guard (one per return): lets the solver work path by path
 }
 
 func (o *Obligation) Name() string {
